@@ -7,7 +7,7 @@ import check as CK
 
 ID = "C08"
 LEAN_MODULES = ["LhasaV.Props.C08"]
-VH_FEATURES = ["reader"]
+VH_FEATURES = ["reader", "header"]
 PER_OP_SECONDS = 30
 THEOREMS = {"header_no_fault": "full for the header parser: every input byte string", "header_consumes_within": "full"}
 TRUSTED = ["hand-written models of the header parser, input stream, basic reader, reader and MacBinary pass-through "
@@ -26,7 +26,7 @@ CLI_MODES = ["l", "v", "lv", "vv", "t", "p", "xn", "xqf", "pq", "tq2"]
 
 
 def budget(tier):
-    return 350 if tier == "quick" else 6000
+    return 900 if tier == "quick" else 12000
 
 
 def judge(c_out):
@@ -43,8 +43,10 @@ def gen_archive(r, smalls):
     if k < 0.55:
         name, d = r.choice(smalls)
         return A.mutate_archive(r, d), "mutated"
-    if k < 0.9:
+    if k < 0.8:
         return A.structured_archive(r), "structured"
+    if k < 0.93:
+        return A.hostile_member_archive(r), "hostile-member"
     return S.rand_bytes(r, S.geometric_len(r, 60, 2000)), "random"
 
 
@@ -54,13 +56,23 @@ def gen_cases(ctx, n):
     out = []
     for i in range(n):
         d, kind = gen_archive(r, smalls)
-        toks = A.legal_history(r)
+        toks = A.decode_history(r) if kind == "hostile-member" else A.legal_history(r)
         out.append(Case(A.rdr_op(r.choice(A.KINDS), r.choice(A.POLICIES), toks, d), judge=judge,
                         tags={"lib", kind}))
         if i % 3 == 0:
-            mode = r.choice(CLI_MODES)
+            mode = r.choice(["t", "p", "xqf"]) if kind == "hostile-member" else r.choice(CLI_MODES)
             out.append(Case("cli %s %s %s" % (mode, r.choice(["file", "stdin"]), d.hex() or "-"), judge=judge,
                             tags={"cli", "mode=" + mode, kind}))
+    # header-level perturbations (every single-byte substitution at the length/level bytes, every truncation,
+    # extended-header size perturbations) of a few generated headers: the parser alone, and through the reader
+    import props.C12 as C12
+    for c in C12.gen_cases(ctx, 4 if n < 2000 else 16):
+        if c.note == "crit" or r.random() < 0.02:
+            out.append(Case(c.op, judge=judge, tags={"hdr-perturbed"}))
+            if r.random() < 0.15:
+                hx = c.op.split()[1]
+                out.append(Case("rdr %s %s -1 n;c;n;n %s" % (r.choice(A.KINDS), r.choice(A.POLICIES), hx), judge=judge,
+                                tags={"lib", "hdr-perturbed"}))
     return out
 
 
